@@ -206,6 +206,11 @@ Proof.
                     (fun p n => k_gpo_ref_to_alt_position_eq g p n (from_var_stats_del_length vs r g Hv H)))).
 Qed.
 
+(* the backward search of array_utils (a while loop that returns from inside), translated on every run, is the definition the SEARCH_F table
+   of the translated ref_to_alt_position is read with - for every array, start and value, the IndexError of a start beyond the array included *)
+Theorem C05_prev_index_matches_source : forall a i v, k_get_prev_index a i v = u8_prev_index a i v.
+Proof. exact k_get_prev_index_eq. Qed.
+
 (* the recorded finding read off the translated source: one base on an insertion point is not reported, two bases over it are *)
 Theorem C05_alt_single_base_insertion_point_in_source :
   exists g, from_var_stats [mkVS 13 0 2] (mkRange 10 20) = Ok g /\
@@ -270,5 +275,6 @@ Print Assumptions C05_alt_single_base_insertion_point_in_source.
 Print Assumptions C05_clamp_matches_source.
 Print Assumptions C05_from_var_stats_matches_source.
 Print Assumptions C05_source_record_is_model_record.
+Print Assumptions C05_prev_index_matches_source.
 Print Assumptions C05_alt_var_overlap_characterised.
 Print Assumptions C05_alt_single_base_insertion_point_refuted.
